@@ -205,24 +205,62 @@ def naive_blocks(ts, unphased):
     return out, mut_block
 
 
-def block_case(rng, res, stats):
-    from tsdate.phasing import block_singletons
-    n = int(rng.integers(2, 5))
-    ts, info = gen.gen_ts(rng, ploidy=2, n=n, polytomy=0.2, rootmuts=0.2, muts_per_edge=float(rng.choice([1, 3, 8])))
-    if ts.num_individuals == 0 or ts.num_edges == 0:
-        return
-    unphased = rng.random(ts.num_individuals) < 0.7
-    if rng.random() < 0.3:
-        unphased[:] = True
-    # only contemporary diploids may be unphased (the wrapper raises otherwise)
+def one_haplotype_missing(ts, unphased):
+    """Input class of the known finding: some unphased diploid has exactly one of its two leaf nodes in
+    a tree (the other is isolated there)."""
     for ind in ts.individuals():
-        if len(ind.nodes) != 2 or np.any(ts.nodes_time[ind.nodes] != 0):
-            unphased[ind.id] = False
+        if not unphased[ind.id] or len(ind.nodes) != 2:
+            continue
+        a, b = int(ind.nodes[0]), int(ind.nodes[1])
+        for tree in ts.trees():
+            if (tree.edge(a) < 0) != (tree.edge(b) < 0):
+                return True
+    return False
+
+
+def block_witnesses():
+    """The two inputs of Props/C24 `block_count_counterexample` / `block_assertion_counterexample`."""
+    import tskit
+
+    def mk(edges, muts, ntimes, inds):
+        t = tskit.TableCollection(sequence_length=10)
+        for _ in range(2):
+            t.individuals.add_row()
+        for i, tm in enumerate(ntimes):
+            t.nodes.add_row(flags=tskit.NODE_IS_SAMPLE if tm == 0 else 0, time=tm,
+                            individual=-1 if inds[i] is None else inds[i])
+        for (l, r, p, c) in edges:
+            t.edges.add_row(l, r, p, c)
+        for (pos, node) in muts:
+            t.mutations.add_row(t.sites.add_row(pos, "A"), node, "T")
+        t.sort()
+        t.build_index()
+        t.compute_mutation_parents()
+        return t.tree_sequence()
+
+    w1 = mk([(0, 10, 4, 0), (4, 10, 4, 1), (0, 10, 4, 2), (0, 10, 4, 3)], [(2, 0), (6, 0), (3, 2), (7, 3)],
+            [0, 0, 0, 0, 1], [0, 0, 1, 1, None])
+    w2 = mk([(0, 6, 4, 0), (6, 10, 5, 0), (0, 4, 4, 1), (0, 10, 4, 2), (0, 10, 4, 3), (6, 10, 5, 4)],
+            [(2, 0), (7, 0), (3, 2), (8, 3)], [0, 0, 0, 0, 1, 2], [0, 0, 1, 1, None, None])
+    return [w1, w2]
+
+
+def check_blocks(ts, unphased, res, stats, source):
+    from tsdate.phasing import block_singletons
     replay = dict(kind="blocks", ts=gen.ts_to_jsonable(ts), unphased=[int(b) for b in unphased],
                   nodes_individual=[int(x) for x in ts.nodes_individual])
     res.evaluations += 1
+    missing = one_haplotype_missing(ts, unphased)
+    stats["blocks_class"][f"{source}:{'one-haplotype-missing' if missing else 'complete'}"] = \
+        stats["blocks_class"].get(f"{source}:{'one-haplotype-missing' if missing else 'complete'}", 0) + 1
     try:
         bstats, bedges, mblock = block_singletons(ts, np.ascontiguousarray(unphased))
+    except AssertionError:
+        kind = "blocks-assertion-one-haplotype-missing" if missing else "blocks-assertion"
+        res.violations.append(Violation(kind, "block_singletons raised a bare AssertionError (num_blocks != flushed blocks)"
+                                        + (": an unphased individual has one leaf node isolated over part of the sequence"
+                                           if missing else ""), replay))
+        return
     except Exception as e:  # noqa: BLE001
         stats["blocks_raised"][type(e).__name__] = stats["blocks_raised"].get(type(e).__name__, 0) + 1
         return
@@ -232,10 +270,13 @@ def block_case(rng, res, stats):
     want = sorted((tuple(sorted(b["pair"])), float(b["span"]), float(b["singletons"])) for b in nb)
     if got != want:
         spans_ok = sorted(g[:2] for g in got) == sorted(w[:2] for w in want)
-        kind = "blocks-singleton-count-differs" if spans_ok else "blocks-span-or-edges-differ"
+        if spans_ok and missing:
+            kind = "blocks-count-includes-one-branch-stretch"
+        else:
+            kind = "blocks-singleton-count-differs" if spans_ok else "blocks-span-or-edges-differ"
         res.violations.append(Violation(kind, f"block_singletons: {len(got)} block(s) vs naive per-tree tally {len(want)}; "
                                         f"first difference {next((g, w) for g, w in zip(got + [None], want + [None]) if g != w)}", replay))
-    else:
+    elif not missing:
         # every mutation of an unphased individual points at the block that contains it
         for m in range(ts.num_mutations):
             k = int(mblock[m])
@@ -248,9 +289,29 @@ def block_case(rng, res, stats):
     if len(nb) >= 2 and ts.num_trees > 1:
         res.nontrivial.add(common.canon_key([replay["ts"]["edges"], replay["unphased"], "blocks"]))
     if stats["blocks_cases"] % 10 == 0:
-        res.sample(dict(kind="blocks", individuals=int(ts.num_individuals), unphased=int(unphased.sum()),
-                        trees=ts.num_trees, blocks=len(nb)))
+        res.sample(dict(kind="blocks", individuals=int(ts.num_individuals), unphased=int(np.sum(unphased)),
+                        trees=ts.num_trees, blocks=len(nb), one_haplotype_missing=missing))
     stats["blocks_cases"] += 1
+
+
+def block_case(rng, res, stats):
+    n = int(rng.integers(2, 5))
+    ts, info = gen.gen_ts(rng, ploidy=2, n=n, polytomy=0.2, rootmuts=0.2, muts_per_edge=float(rng.choice([1, 3, 8])))
+    source = "random"
+    if rng.random() < 0.3:
+        ts2 = sc.truncate_leaf_edge(ts, rng)
+        if ts2 is not None:
+            ts, source = ts2, "leaf-edge-truncated"
+    if ts.num_individuals == 0 or ts.num_edges == 0:
+        return
+    unphased = rng.random(ts.num_individuals) < 0.7
+    if rng.random() < 0.3:
+        unphased[:] = True
+    # only contemporary diploids may be unphased (the wrapper raises otherwise)
+    for ind in ts.individuals():
+        if len(ind.nodes) != 2 or np.any(ts.nodes_time[ind.nodes] != 0):
+            unphased[ind.id] = False
+    check_blocks(ts, unphased, res, stats, source)
 
 
 def ep_case(rng, res, stats):
@@ -276,7 +337,8 @@ def ep_case(rng, res, stats):
 def _stats():
     return dict(fired={}, variants={}, hyp=dict(valid=0, no_overlap=0, nodes_below=0, muts_ok=0, times_ok=0, partition_ok=0, n=0),
                 span_spec_checked=0,
-                nontrivial_root_or_multiedge=0, blocks=0, blocks_cases=0, blocks_raised={}, ep_ok=0, ep_raised={})
+                nontrivial_root_or_multiedge=0, blocks=0, blocks_cases=0, blocks_raised={}, blocks_class={}, ep_ok=0,
+                ep_raised={})
 
 
 def run(ctx):
@@ -284,12 +346,14 @@ def run(ctx):
     import tsdate  # noqa: F401
     dating.quiet()
     stats = _stats()
-    kernel_cases(ctx, ctx.n(50, 1000), 1, res, stats)
+    kernel_cases(ctx, ctx.n(40, 700), 1, res, stats)
+    for w in block_witnesses():
+        check_blocks(w, np.ones(w.num_individuals, dtype=bool), res, stats, "witness")
     rng = ctx.rng(2)
-    for _ in range(ctx.n(25, 500)):
+    for _ in range(ctx.n(20, 400)):
         block_case(rng, res, stats)
     rng = ctx.rng(3)
-    for _ in range(ctx.n(20, 400)):
+    for _ in range(ctx.n(16, 300)):
         ep_case(rng, res, stats)
     res.rule = ("B/C: tskit tree sequences (recombination, polytomies, gaps, deleted flanks, historical and internal samples, "
                 "mutations above roots / on isolated samples / beyond the last edge, unary nodes, dead-end branches, node "
@@ -327,7 +391,12 @@ def replay(ctx, payload):
         t.nodes.individual = np.array(d["nodes_individual"], dtype=np.int32)
         ts = t.tree_sequence()
         un = np.array(d["unphased"], dtype=bool)
-        bstats, bedges, mblock = block_singletons(ts, un)
+        print("one haplotype missing somewhere:", one_haplotype_missing(ts, un))
+        try:
+            bstats, bedges, mblock = block_singletons(ts, un)
+        except AssertionError:
+            print("implementation: block_singletons raised AssertionError")
+            return False
         nb, _ = naive_blocks(ts, un)
         print("implementation blocks:", [(list(map(int, bedges[k])), float(bstats[k, 1]), float(bstats[k, 0])) for k in range(len(bedges))])
         print("naive per-tree tally :", [(sorted(b["pair"]), b["span"], b["singletons"]) for b in nb])
